@@ -5,7 +5,7 @@
    dependency) is no longer an assumption: see deps_cover_by_construction. *)
 From V Require Import Common.Base C10.BitSet C10.Renamer C10.Split
   C10.BitSetProofs C10.RenamerProofs C10.ListLemmas C10.SplitProofs C10.OrderProofs C10.CrossProofs
-  C10.Eval C10.EvalProofs C10.TotalProofs C10.DfsProofs.
+  C10.Eval C10.EvalProofs C10.TotalProofs C10.DfsProofs C10.DynProofs.
 From Coq Require Import Permutation.
 From Coq Require Import Relations.
 
@@ -242,3 +242,48 @@ Theorem chunk_order_respects_imports : forall g a c f f',
   In f' (chunk_order g a c) /\ before f' f (chunk_order g a c).
 Proof. exact chunk_order_respects_imports_all. Qed.
 Print Assumptions chunk_order_respects_imports.
+
+(* ---- import() under code splitting ---- *)
+(* every entry point, user-specified or import() target, has an entry chunk *)
+Theorem entry_point_has_entry_chunk : forall g a e, analyse g = Some a -> In e (a_entries a) ->
+  exists oi bit, entry_chunk_index e (a_chunks a) 0 = Some oi /\ (oi < length (a_chunks a))%nat /\
+    c_entry (nth oi (a_chunks a) dchunk) = Some (bit, e) /\ (bit < length (a_entries a))%nat /\ nth bit (a_entries a) O = e.
+Proof. exact every_entry_has_chunk. Qed.
+Print Assumptions entry_point_has_entry_chunk.
+
+(* an import() of ANOTHER file makes that file an entry point and resolves to the chunk whose
+   entry point (entry bit) is that file; the importing chunk is that chunk or records a dynamic
+   cross-chunk import of it *)
+Theorem dynamic_import_resolves_to_entry_chunk : forall g r ci f t, split g = Some r -> wf_graphb g = true ->
+  let a := r_analysis r in
+  (ci < length (a_chunks a))%nat -> In f (c_files (nth ci (a_chunks a) dchunk)) ->
+  In (t, true) (f_recs (getf g f)) -> t <> f ->
+  In t (a_entries a) /\
+  exists oi bit, entry_chunk_index t (a_chunks a) 0 = Some oi /\ (oi < length (a_chunks a))%nat /\
+    c_entry (nth oi (a_chunks a) dchunk) = Some (bit, t) /\ nth bit (a_entries a) O = t /\
+    (oi = ci \/ In (mkImp true oi []) (x_imports (nth ci (r_cross r) dcross))).
+Proof. exact dynamic_import_resolves_all. Qed.
+Print Assumptions dynamic_import_resolves_to_entry_chunk.
+
+(* the same statement without [t <> f] is false: the self import() (known finding
+   C10-self-dynamic-import, replayed on the real code in every run) *)
+Theorem dynamic_import_self_refuted :
+  exists g r ci f, split g = Some r /\ wf_graphb g = true /\
+    In f (c_files (nth ci (a_chunks (r_analysis r)) dchunk)) /\ In (f, true) (f_recs (getf g f)) /\
+    In f (a_entries (r_analysis r)) /\ entry_chunk_index f (a_chunks (r_analysis r)) 0 = Some ci /\
+    is_external_dynamic (a_entries (r_analysis r)) f (f, true) = false /\
+    x_imports (nth ci (r_cross r) dcross) = [] /\
+    In f (osucc g (r_analysis r) (nth ci (a_chunks (r_analysis r)) dchunk) f).
+Proof. exact dynamic_import_self_refuted_all. Qed.
+Print Assumptions dynamic_import_self_refuted.
+
+(* entry_loads_all_reachable for import() targets *)
+Theorem dynamic_entry_loads_all_reachable : forall g r f t oj f', split g = Some r -> wf_graphb g = true ->
+  let a := r_analysis r in
+  In f (reachable_files g) -> In (t, true) (f_recs (getf g f)) ->
+  (oj < length (a_chunks a))%nat -> In f' (c_files (nth oj (a_chunks a) dchunk)) ->
+  path (split_succ g (a_entries a)) (is_live a) t f' ->
+  exists oi bit, entry_chunk_index t (a_chunks a) 0 = Some oi /\
+    c_entry (nth oi (a_chunks a) dchunk) = Some (bit, t) /\ (oj = oi \/ sedge (r_cross r) oi oj).
+Proof. exact dynamic_entry_loads_all_reachable_all. Qed.
+Print Assumptions dynamic_entry_loads_all_reachable.
